@@ -427,6 +427,12 @@ def check(run, repo, world):
     if asm is None:
         return
     anode, avar, ops, in_try_te = asm
+    roles = [(M, role) for (M, role, via) in ops]
+    run.ob("R-DT8-LANES", F + "#assembly-order",
+           roles == [(msb, "msb"), (lsb, "lsb")],
+           "the QueryColourValue answer must be the high byte and the "
+           "QueryContentDTR0 answer the low byte of the result; assembled "
+           "as %s" % roles, where(mod, anode))
     # int guards (must facts)
     def tr(node, st):
         return st
